@@ -41,6 +41,8 @@ Judge(e) ==
       \* returns for the same arguments - it does not depend on the calls made before
       ELSE IF mode = "eval" /\ e.twin = "neq" THEN "depends_on_history"
       ELSE "ok"
+  \* the comparison probes of a reload / copy are evaluation-mode calls: they may write nothing
+  ELSE IF e.a \in {"SaveLoadFresh", "Clone"} /\ e.probeWrites # <<>> THEN "state_written_in_eval"
   ELSE IF e.a = "SaveLoadFresh" THEN
       (IF ~e.same THEN "reload_differs" ELSE "ok")
   ELSE IF e.a = "Clone" THEN
